@@ -511,7 +511,7 @@ def cli(argv=None, mode='output'):
         # random graph arguments have been built with)
         try:
             cnf = args.generator.build_formula(args, formula_class=CNF)
-        except (CLIError, ValueError) as e:
+        except (CLIError, ValueError, TypeError) as e:
             args.generator.subparser.error(e)
         except RuntimeError as e:
             raise InternalBug(e) from e
@@ -519,7 +519,7 @@ def cli(argv=None, mode='output'):
         for argdict in t_args:
             try:
                 cnf = argdict.transformation.transform_cnf(cnf, argdict)
-            except (CLIError, ValueError) as e:
+            except (CLIError, ValueError, TypeError) as e:
                 argdict.transformation.subparser.error(e)
             except RuntimeError as e:
                 raise InternalBug(e) from e
